@@ -720,10 +720,15 @@ func (w *World) enabled() []Event {
 	}
 	if sc.Dev.Stale {
 		for _, n := range w.nodes {
-			if !n.live() || !n.isValidator() {
+			if !n.live() {
 				continue
 			}
 			c := n.ctx()
+			if !n.isValidator() {
+				// a watch-only node never arms its timer; a spurious OnTimeout for its own epoch must still be harmless
+				alt(Event{K: "stale", N: n.id, A: int(c.BlockIndex), B: int(c.ViewNumber)})
+				continue
+			}
 			if c.ViewNumber > 0 {
 				alt(Event{K: "stale", N: n.id, A: int(c.BlockIndex), B: int(c.ViewNumber) - 1})
 			}
